@@ -435,6 +435,9 @@ class LibsModel:
             # a trajectory of unknown origin: metadata as documented by the loaders
             st.heap[base.oid]['metadata'] = self.metadata_av(base.deps)
             st.heap[base.oid].pop('#mode', None)
+            # storage of unknown mode: positions (possibly unwrapped) or displacements
+            st.heap[base.oid].setdefault('coords', AV(ty='ndarray', geo=('RAW',), axes=('frame', 'atom', XYZ), deps=base.deps,
+                                                      store='attr:Trajectory.coords', prov=frozenset({'traj.coords'})))
 
     def ext_base_init(self, interp, st, obj, ci, args, kwargs, node):
         _, ext = interp.p.mro(ci)
